@@ -3,6 +3,7 @@ import Circomspect.Spec.Field
 import Circomspect.Model.Strip
 import Circomspect.Spec.Strip
 import Circomspect.Model.Curve
+import Circomspect.Model.Runner
 
 namespace Driver
 open Circomspect
@@ -102,11 +103,59 @@ def c11Cmd (args : List String) : String :=
     | none => "bad-op"
   | _ => "bad-op"
 
+def csv (s : String) (sep : String) : List String := if s == "-" || s.isEmpty then [] else s.splitOn sep
+
+def parseReport (t : String) : Option Runner.Report :=
+  match t.splitOn "/" with
+  | [i, l, loc, u, b] => match l.toNat? with
+    | some l => some { id := i, level := l, located := loc == "1", inUser := u == "1", body := b }
+    | none => none
+  | _ => none
+
+def parseReports (t : String) : List Runner.Report := (csv t ";").filterMap parseReport
+
+def showReports (rs : List Runner.Report) : String :=
+  if rs.isEmpty then "-" else ";".intercalate (rs.map (fun r => s!"{r.id}/{r.level}/{r.body}"))
+
+structure DefRow where
+  name : String
+  ok : Bool
+  gen : List Runner.Report
+  lookups : List String
+  passes : List Runner.Report
+
+def parseDef (t : String) : Option DefRow :=
+  match t.splitOn ":" with
+  | [n, ok, g, l, ps] => some { name := n, ok := ok == "1", gen := parseReports g, lookups := csv l ",", passes := parseReports ps }
+  | _ => none
+
+def runnerCmd (args : List String) : String :=
+  match args with
+  | level :: allow :: order :: parse :: defs =>
+    match level.toNat? with
+    | none => "bad-op"
+    | some level =>
+      let rows := defs.filterMap parseDef
+      let find (n : String) : Option DefRow := rows.find? (·.name == n)
+      let p : Runner.Project :=
+        { parseReports := parseReports parse
+          known := fun n => (find n).isSome
+          gen := fun n => match find n with | some r => (r.ok, r.gen) | none => (false, [])
+          lookups := fun n => match find n with | some r => r.lookups | none => []
+          passes := fun n => match find n with | some r => r.passes | none => [] }
+      let o : Runner.Opts := { level := level, allow := csv allow "," }
+      let order := csv order ","
+      let bs := Runner.batches p order
+      let b := "|".intercalate (bs.map showReports)
+      s!"exit {Runner.exitCode o p order} # written {Runner.written o p order} # {Runner.summary o p order} # {b} # {showReports (Runner.displayed o p order)} # {showReports (Runner.sarif o p order)}"
+  | _ => "bad-op"
+
 def handle (line : String) : String :=
   match line.splitOn " " with
   | "field" :: args => fieldCmd args
   | "fieldspec" :: args => fieldSpecCmd args
   | "c11" :: args => c11Cmd args
+  | "runner" :: args => runnerCmd args
   | "strip" :: args => stripCmd false args
   | "stripspec" :: args => stripCmd true args
   | _ => "bad-op"
